@@ -159,3 +159,152 @@ class _:
             frame=lambda v, e: {"$free": ["LA.Row", "LLO.Row", "LHI.Row", "H.OverlapResult.start", "H.OverlapResult.end", "H.OverlapResult.g_ts", "H.OverlapResult.g_te"]},
         ),
     }
+
+
+# --- C09: routing of fused scaffolds to the output assemblies -------------------------------------------------------
+# "Tags route sequence to the documented destination assembly": a fused scaffold carrying a destination tag
+# (Contaminant / Haplotig / FalseDuplicate, decided by label_scaffold) goes to the assembly of that tag, which is not
+# curated; otherwise a scaffold with a haplotype goes to that haplotype's assembly and one without to the primary
+# assembly, both curated.  Proved per fused scaffold (one iteration of the routing loop).
+
+from pyvc.values import TDict  # noqa: E402
+
+ASMS = TDict(TOpt(STR), TRef("Assembly"))
+CN = TRef("ChrNamer")
+OSTR = TOpt(STR).sort()
+
+
+@contract("tola.assembly.build_utils.ChrNamer.__init__", kind="init", status="TRUSTED")
+class _:
+    params = {"self": CN, "chr_prefix": STR}
+    defaults = {"chr_prefix": "SUPER_"}
+    modifies = staticmethod(lambda o: [("field", "ChrNamer", "chr_prefix", o.self)])
+    ensures = staticmethod(lambda o, n, res: n.self.chr_prefix == o.chr_prefix)
+
+
+@contract("tola.assembly.build_utils.ChrNamer.add_scaffold", status="TRUSTED")
+class _:
+    # remembers the scaffold for name_chromosomes(); no effect on anything the routing contract talks about
+    params = {"self": CN, "hap": TOpt(STR), "scffld": TRef("Scaffold")}
+    result = NONE
+
+
+@contract("tola.assembly.build_utils.ChrNamer.add_chr_prefix", status="TRUSTED")
+class _:
+    params = {"self": CN, "scffld": TRef("Scaffold")}
+    result = NONE
+    modifies = staticmethod(lambda o: [("field", "Scaffold", "name", o.scffld)])
+
+
+@contract("tola.assembly.build_utils.ChrNamer.name_chromosomes", status="TRUSTED")
+class _:
+    # renames autosomes by size: only scaffold names change (decided by the bounded tier for C10)
+    params = {"self": CN}
+    result = NONE
+    modifies = staticmethod(lambda o: [("map", "H.Scaffold.name")])
+    raises = {e: (lambda o: True) for e in ("ValueError", "ChrNamerError", "TaggingError")}
+
+
+@contract("tola.assembly.assembly_stats.AssemblyStats.make_stats", status="TRUSTED")
+class _:
+    params = {"self": TRef("AssemblyStats"), "assemblies": ASMS}
+    result = NONE
+    modifies = staticmethod(lambda o: [("field", "AssemblyStats", f, o.self) for f in ("cuts", "breaks", "joins")])
+    raises = {"ValueError": lambda o: True}
+
+
+@contract(f"{M}.autosome_prefix", kind="property", status="TRUSTED")
+class _:
+    params = {"self": BA}
+    result = STR
+    pure = staticmethod(lambda o, s: s.scaffold_namer.autosome_prefix)
+
+
+@contract(f"{M}.scaffolds_fused_by_name", status="BOUNDED", properties=())
+class _:
+    # the generator, as the list of what it yields: new scaffolds built from the overlap results (the fusion itself -
+    # key (tag, haplotype, name), join gap - is decided by the bounded tier for C07 / C09)
+    as_list = True
+    params = {"self": BA}
+    result = TList(TRef("Scaffold"))
+    result_zero_based = True
+    modifies = staticmethod(lambda o: [("fresh-objs", "Scaffold", ["name", "rows", "tag", "haplotype", "rank", "original_name", "original_tags"]),
+                                       ("fresh-lists", ROW), ("fresh-lists", TRef("Scaffold")), ("alloc",), ("ralloc",)])
+    raises = {"ValueError": lambda o: True}
+
+    @staticmethod
+    def ensures(o, n, res):
+        return z3.And(res.z >= o.alloc, res.z < n.alloc, res.len >= 0,
+                      forall(lambda k: z3.Implies(z3.And(0 <= k, k < res.len), z3.And(res[k].z >= 1, res[k].z < n.alloc))))
+
+
+def _destination(sc):
+    """(key, curated) of the assembly a fused scaffold belongs to"""
+    tag, hap = sc.tag, sc.haplotype
+    has_tag = z3.And(z3.Not(tag.is_none), z3.Length(tag.val) > 0)
+    has_hap = z3.And(z3.Not(hap.is_none), z3.Length(hap.val) > 0)
+    key = z3.If(has_tag, OSTR.some(tag.val), z3.If(has_hap, OSTR.some(hap.val), OSTR.none))
+    return key, z3.Not(has_tag)
+
+
+def _routing_post(v, b, e, o):
+    sc = b.scffld
+    key, curated = _destination(sc)
+    d0, d1 = b.assemblies, v.assemblies
+    dest = d1.get(key)
+    other = z3.Const("key!route", OSTR)
+    r = z3.Int("r!route")
+    asm_sc0 = lambda ref: __import__("pyvc.spec", fromlist=["ObjView"]).ObjView(b.state, ref, "Assembly").scaffolds
+    asm_sc1 = lambda ref: __import__("pyvc.spec", fromlist=["ObjView"]).ObjView(v.state, ref, "Assembly").scaffolds
+    old = asm_sc0(dest.z)
+    new = dest.scaffolds
+    return [
+        ("destination-exists", d1.has(key)),
+        # an assembly that was already there is reused, a new one is flagged curated unless it is a tag's assembly
+        ("destination-reused-or-new", z3.If(d0.has(key), d1.raw(key) == d0.raw(key), z3.And(dest.z >= b.alloc, dest.curated == curated, dest.name == o.self.name))),
+        ("scaffold-is-appended-there", z3.And(new.len == z3.If(d0.has(key), old.len, 0) + 1, new[new.len - 1].z == sc.z)),
+        ("other-assemblies-kept", z3.ForAll([other], z3.Implies(other != key, z3.And(d1.has(other) == d0.has(other), d1.raw(other) == d0.raw(other))))),
+        ("curated-flags-kept", z3.ForAll([r], z3.Implies(r < b.alloc, v.state.heap.get("H.Assembly.curated", b.state.hmap("H.Assembly.curated", smt.Int, smt.Bool))[r]
+                                                               == b.state.hmap("H.Assembly.curated", smt.Int, smt.Bool)[r]))),
+    ]
+
+
+@contract(f"{M}.assemblies_with_scaffolds_fused", properties=("C09",))
+class _:
+    params = {"self": BA}
+    result = ASMS
+    local_types = {"assemblies": ASMS}
+    requires = staticmethod(lambda o: [("stats-object", o.self.assembly_stats.z != o.self.z)])
+    modifies = staticmethod(lambda o: [("fresh-objs", "Scaffold", ["name", "rows", "tag", "haplotype", "rank", "original_name", "original_tags"]),
+                                       ("fresh-objs", "Assembly", ["name", "scaffolds", "header", "curated"]), ("fresh-objs", "ChrNamer", ["chr_prefix"]),
+                                       ("fresh-lists", ROW), ("fresh-lists", TRef("Scaffold")), ("fresh-lists", STR), ("fresh-lists", TRef("Assembly")),
+                                       ("map", "H.Scaffold.name"), ("dict-maps", TOpt(STR), TRef("Assembly")),
+                                       *[("field", "AssemblyStats", f, o.self.assembly_stats) for f in ("cuts", "breaks", "joins")],
+                                       ("alloc",), ("ralloc",)])
+    raises = {e: (lambda o: True) for e in ("ValueError", "ChrNamerError", "TaggingError")}
+    ensures = staticmethod(lambda o, n, res: [("new-dict", res.z >= o.alloc)])
+
+    loops = {
+        0: LoopSpec(
+            kind="for",
+            inv=lambda v, e, o: [
+                ("objects", z3.And(v.assemblies.z == e.assemblies.z, v.assemblies.z >= o.alloc, v.assemblies.z < v.alloc, v.chr_namer.z == e.chr_namer.z,
+                                   v.self.z == o.self.z, v._it0_seq.z == e._it0_seq.z, v._it0_seq.lo == 0)),
+                ("counter", z3.And(0 <= v._it0, v._it0 <= v._it0_seq.len)),
+                # every assembly in the dict is one this call created, with its own scaffold list
+                ("assemblies-are-new", (lambda k: z3.ForAll([k], z3.Implies(v.assemblies.has(k), z3.And(
+                    v.assemblies.raw(k) >= o.alloc, v.assemblies.raw(k) < v.alloc, v.assemblies.get(k).scaffolds.z >= o.alloc,
+                    v.assemblies.get(k).scaffolds.z < v.alloc, v.assemblies.get(k).scaffolds.lo == 0))))(z3.Const("k!asms", OSTR))),
+            ],
+            iter_post=_routing_post,
+            frame=lambda v, e: {"$fresh-only": ["LA.Int", "LHI.Int", "LLO.Int", "H.Assembly.name", "H.Assembly.scaffolds", "H.Assembly.header", "H.Assembly.curated",
+                                                "LA.String", "LHI.String", "LLO.String", "H.$class"]},
+        ),
+        # sorting the scaffolds of each output assembly: only lists this call created are rearranged
+        1: LoopSpec(kind="for", inv=lambda v, e, o: [
+            ("objects", z3.And(v.assemblies.z == e.assemblies.z, v._it1_seq.z == e._it1_seq.z, v._it1_seq.arr == e._it1_seq.arr, v._it1_seq.hi == e._it1_seq.hi, v._it1_seq.lo == 0)),
+            ("assemblies-are-new", (lambda k: z3.ForAll([k], z3.Implies(v.assemblies.has(k), z3.And(
+                v.assemblies.raw(k) >= o.alloc, v.assemblies.raw(k) < v.alloc, v.assemblies.get(k).scaffolds.z >= o.alloc,
+                v.assemblies.get(k).scaffolds.z < v._it1_seq.z))))(z3.Const("k!asms", OSTR))),
+        ], frame=lambda v, e: {"$fresh-only": ["LA.Int", "LHI.Int", "LLO.Int"]}),
+    }
